@@ -37,8 +37,15 @@ def _one(t, fn, vfs):
     holder = {}
 
     def attach(ctx):
-        ctx.w.audit = aud
+        w = ctx.w
+        w.audit = aud
         holder["pre_tree"] = host_tree(".") if vfs == "mem" else None
+        # one run in eight names a destination whose parent directories do not exist in the filestore: the transfer
+        # is rejected (in both executions alike), and nothing may be created on the host to "help"
+        if w.tape.choose(8, "destination parent missing") == 7 and not w.cfg.metadata_only:
+            w.dst_req = "inbox/2026/out.bin"
+            w.dst_path = "inbox/2026/out.bin"
+            w.probe("C16.missing_parent_destination")
         return []
 
     ctx = fn(t, attach, force={"vfs": vfs})
